@@ -44,6 +44,11 @@ def exec_CMP(t):
             X = npnum(X)
         if kind == 'fn':
             Y = npnum(Y)
+        if (nx + ny + fx + a[0] + b[-1]) % 2 == 0:
+            from ..arith import warm
+            for w_ in (X, Y):
+                if isinstance(w_, Fxp):
+                    warm(w_)        # looked at and used in every read-only way before the comparison
         out = []
         for op in OPS:
             r = op(X, Y)
@@ -65,6 +70,10 @@ def exec_NC(t):
             x = Fxp(v[0] if len(v) == 1 else v, s, n, f)
             if codes_of(x) != codes:
                 return ['SRCFAIL']
+        if (n + f + len(codes) + codes[0]) % 2 == 0:
+            # (content-determined) the object has been looked at and used in every read-only way before it is read here
+            from ..arith import warm
+            warm(x)
         gv = [tok_exact(v) for v in flat(x.get_val())]
         af = [tok_exact(v) for v in flat(x.astype(float))]
         ai = [str(int(v)) for v in flat(x.astype(int))]
